@@ -62,7 +62,12 @@ def units(tier):
             tag = "".join(str(list(Days()).index(x)) for x in combo) or "none"
             return equiv_obligations(ip, ctx, f"{PROP}/weekday{cw}/days_{tag}", ob, os_) + [
                 Obligation(f"{PROP}/weekday{cw}/days_{tag}/the_callers_day_set_is_unchanged", ctx, isinstance(days, PySet) and set(days.s) == set(combo),
-                           note=f"{sorted(getattr(d, 'name', str(d)) for d in days.s)}")]
+                           note=f"{sorted(getattr(d, 'name', str(d)) for d in days.s)}"),
+                # 'for any current local date and time': one reading of the clock - two readings can straddle midnight, and the
+                # text would then be right for neither instant (the model's clock does not advance between readings, so this is
+                # an obligation of its own)
+                Obligation(f"{PROP}/weekday{cw}/days_{tag}/the_clock_is_read_once", ctx, len(ctx.ghost.clock_reads) <= 1,
+                           note=str(ctx.ghost.clock_reads[:4]))]
 
         def wit(ctx, model):
             return {"case": {"prop": PROP, "kind": "one", "inputs": {k: concretise(v, model) for k, v in ctx.inputs.items()}},
@@ -94,4 +99,5 @@ def search_cases(o, seed):
 
 def native_cases(tier, seed):
     zones = [0, 14 * 3600, -12 * 3600, 19800] if tier == "quick" else [0, 14 * 3600, -12 * 3600, 19800, 3600, -5 * 3600, 45 * 900]
-    return [{"prop": PROP, "kind": "table", "inputs": {"seed": seed, "zones": zones, "minutes": 4 if tier == "quick" else 12}}]
+    return [{"prop": PROP, "kind": "table", "inputs": {"seed": seed, "zones": zones, "minutes": 4 if tier == "quick" else 12}},
+            {"prop": PROP, "kind": "ticking", "inputs": {}}]
